@@ -140,6 +140,9 @@ def run(ctx):
         ctx.violation("C02 fails on the real engine: %s" % f["why"],
                       dict(kind="implementation-monitor/L2", input=f,
                            replay_hint="suites.engine.run_case(engine_specs.<template>, seed) reproduces the run"))
+    # the run-loop theorems (C02_run_loop_*) rest on Model/Runner.v: tie it to _ControlLoopRunner
+    from props._engine_common import run_runnerdiff
+    run_runnerdiff(ctx, ctx.n(60, 1500), 'C02_run_loop_conserves_events / C02_run_loop_blocks_only_when_quiescent')
 
 
 def replay(ctx, path):
